@@ -1,7 +1,1010 @@
-//! C13 — not built yet (stub).
+//! C13 — Updates and signed-only transfers require a valid, timely TSIG.
+//!
+//! Base requests (UPDATE; AXFR under AxfrPolicy::{Deny, AllowAll, AllowSigned}) are built and
+//! signed by hickory's *client* side (`Message::finalize` with a `TSigner`), mutated at the octet
+//! level, and fed through the server's real front door (`VerifFrontDoor` -> `Catalog` ->
+//! `SqliteZoneHandler`) with the server clock set through the interposed `clock_gettime`.
+//!
+//! Oracle (`refm::tsig_ref`, RFC 8945 §4.3 / §5.2 from the *received* octets, own splitter, HMAC
+//! via ring): authorised_ref = the message ends with exactly one TSIG RR naming a configured key
+//! (name + algorithm) whose full-length MAC verifies and |now − Time Signed| ≤ Fudge.
+//!   soundness    zone changed (content or serial) ⇒ the received message is an UPDATE request ∧
+//!                authorised_ref; an AXFR question answered with zone RRs ⇒ policy AllowAll ∨
+//!                (AllowSigned ∧ authorised_ref); never under Deny.
+//!   completeness unmodified request, configured unambiguous key, |now − t| ≤ fudge ⇒ the effect
+//!                happens, the reply's TSIG is the RFC 8945 §5.3 response MAC (recomputed by
+//!                tsig_ref) and hickory's `TSigVerifier` accepts it, and every single-bit flip of
+//!                the reply is rejected by the verifier unless the flipped octet is, by RFC 8945, not
+//!                covered by the MAC (header ID — original-ID substitution —, TSIG CLASS/TTL, case
+//!                of the key name): tsig_ref decides that, too.
 
-use crate::core::Check;
+use futures_executor::block_on;
+use futures_util::{FutureExt, StreamExt};
+use hickory_net::xfer::Protocol;
+use hickory_net::BufDnsStreamHandle;
+use hickory_proto::op::{Edns, Message, MessageType, OpCode, Query};
+use hickory_proto::rr::rdata::A;
+use hickory_proto::rr::{DNSClass, RData, Record, RecordType};
+use hickory_server::server::VerifFrontDoor;
+use hickory_server::zone_handler::{AxfrPolicy, Catalog, ZoneHandler};
+use proptest::prelude::*;
+use serde::{Deserialize, Serialize};
+use std::sync::Arc;
+
+use crate::clock::VirtualClock;
+use crate::core::{catch, enumerate, panic_fail, prop, CaseResult, Check, Env, Fail, Rec, Tier};
+use crate::gen::update_driver::*;
+use crate::gen::updates;
+use crate::refm::canon;
+use crate::refm::tsig_ref::{self, Alg, AuthRef, Key, Tsig};
+use crate::refm::update_ref::*;
+
+#[derive(Clone, Copy, Debug, PartialEq, Eq, Hash, Serialize, Deserialize)]
+pub enum Kind {
+    Update,
+    UpdateWithPrereq,
+    AxfrDeny,
+    AxfrAllowAll,
+    AxfrAllowSigned,
+}
+
+impl Kind {
+    fn is_update(self) -> bool {
+        matches!(self, Kind::Update | Kind::UpdateWithPrereq)
+    }
+    fn policy(self) -> AxfrPolicy {
+        match self {
+            Kind::AxfrAllowAll => AxfrPolicy::AllowAll,
+            Kind::AxfrAllowSigned => AxfrPolicy::AllowSigned,
+            _ => AxfrPolicy::Deny,
+        }
+    }
+}
+
+#[derive(Clone, Copy, Debug, PartialEq, Eq, Hash, Serialize, Deserialize)]
+pub enum KeySet {
+    /// server has no key
+    Zero,
+    One,
+    TwoUseFirst,
+    TwoUseSecond,
+    /// server has (k1, s1); client signs with (k1, other secret)
+    SameNameOtherSecret,
+    /// server has (k1, s1) and (k1, sx) in that order; client signs with (k1, sx)
+    SameNameBothConfigured,
+    /// server has (k1, s1); client signs with (k3, s1)
+    OtherNameSameSecret,
+    /// server has (k1, s1, alg); client signs with (k1, s1, another algorithm)
+    OtherAlgorithm,
+}
+
+#[derive(Clone, Copy, Debug, PartialEq, Eq, Hash, Serialize, Deserialize)]
+pub enum Clock {
+    BeforeWindow,
+    LowerEdge,
+    Exact,
+    Inside(i16),
+    UpperEdge,
+    AfterWindow,
+    FarFuture,
+    FarPast,
+}
+
+#[derive(Clone, Debug, PartialEq, Eq, Hash, Serialize, Deserialize)]
+pub enum Field {
+    KeyName(u8),
+    AlgName(u8),
+    Time(i64),
+    TimeAbs(u64),
+    Fudge(u16),
+    MacLen(u16),
+    MacExtend(u8),
+    MacFlip(u16),
+    OrigId(u16),
+    Error(u16),
+    Other(#[serde(with = "crate::core::hexser")] Vec<u8>),
+    Class(u16),
+    Ttl(u32),
+}
+
+#[derive(Clone, Debug, PartialEq, Eq, Hash, Serialize, Deserialize)]
+pub enum Mutation {
+    None,
+    BitFlip(u32),
+    ByteSet(u32, u8),
+    /// header count `which` (0 = QD .. 3 = AR) set to `value`
+    CountSet(u8, u16),
+    /// move one record across a section boundary: count[which] -= 1, count[which + 1] += 1 (or back)
+    CountShift(u8, bool),
+    /// edit one TSIG field (re-encoded by tsig_ref); `resign` recomputes the MAC with the client key
+    Tsig(Field, bool),
+    TsigRemoved { fix_count: bool },
+    TsigDuplicated,
+    /// another RR (0 = A record, 1 = OPT) follows the TSIG RR
+    TsigNotLast(u8),
+    Trailing(u8),
+    HeaderId(u16),
+    /// drop the hickory client signature and sign again with the reference signer
+    ResignedByReference,
+}
+
+#[derive(Clone, Debug, Serialize, Deserialize)]
+pub struct Case {
+    pub kind: Kind,
+    pub keyset: KeySet,
+    pub alg: Alg,
+    pub t: u64,
+    pub fudge: u16,
+    pub clock: Clock,
+    pub mutation: Mutation,
+    pub id: u16,
+    pub edns: bool,
+    /// replay aid: flip only this bit of the reply instead of sweeping all of them
+    #[serde(default)]
+    pub reply_bit: Option<u32>,
+}
+
+fn k(name: &str, secret: &[u8], alg: Alg) -> Key {
+    Key {
+        name: labels_of(name),
+        secret: secret.to_vec(),
+        alg,
+    }
+}
+
+const S1: &[u8] = b"secret-one-secret-one-secret-one";
+const S2: &[u8] = b"secret-two-secret-two-secret-two";
+const SX: &[u8] = b"secret-xxx-secret-xxx-secret-xxx";
+
+fn other_alg(a: Alg) -> Alg {
+    match a {
+        Alg::Sha256 => Alg::Sha512,
+        Alg::Sha384 => Alg::Sha256,
+        Alg::Sha512 => Alg::Sha384,
+    }
+}
+
+/// (server keys, client key, the client key is configured and its name unambiguous)
+fn keys(ks: KeySet, alg: Alg) -> (Vec<Key>, Key, bool) {
+    let k1 = k("k1.keys.test.", S1, alg);
+    let k2 = k("K2.keys.test.", S2, alg);
+    let k1x = k("k1.keys.test.", SX, alg);
+    let k3 = k("k3.keys.test.", S1, alg);
+    match ks {
+        KeySet::Zero => (vec![], k1, false),
+        KeySet::One => (vec![k1.clone()], k1, true),
+        KeySet::TwoUseFirst => (vec![k1.clone(), k2], k1, true),
+        KeySet::TwoUseSecond => (vec![k1, k2.clone()], k2, true),
+        KeySet::SameNameOtherSecret => (vec![k1], k1x, false),
+        KeySet::SameNameBothConfigured => (vec![k1, k1x.clone()], k1x, false),
+        KeySet::OtherNameSameSecret => (vec![k1], k3, false),
+        KeySet::OtherAlgorithm => (vec![k1], k("k1.keys.test.", S1, other_alg(alg)), false),
+    }
+}
+
+fn base_zone() -> Zone {
+    let o = updates::origin();
+    let mut z = Zone::new(&o);
+    z.insert(&o, T_SOA, 300, &soa_rdata(&labels_of("ns1.zone.test."), &labels_of("admin.zone.test."), 41, 3600, 600, 86400, 60));
+    z.insert(&o, T_NS, 300, &updates::rdata_for(T_NS, 0));
+    z.insert(&labels_of("a.zone.test."), T_A, 300, &updates::rdata_for(T_A, 0));
+    z.insert(&labels_of("b.zone.test."), T_TXT, 300, &updates::rdata_for(T_TXT, 0));
+    z
+}
+
+/// the request as hickory's client library builds and signs it
+fn base_request(c: &Case, client: &Key) -> Result<(Vec<u8>, hickory_proto::rr::TSigVerifier), Fail> {
+    let origin = to_name(&updates::origin());
+    let mut m = if c.kind.is_update() {
+        let mut m = Message::new(c.id, MessageType::Query, OpCode::Update);
+        let mut q = Query::new(origin, RecordType::SOA);
+        q.set_query_class(DNSClass::IN);
+        m.add_query(q);
+        if c.kind == Kind::UpdateWithPrereq {
+            // "RRset exists (value independent)": a.zone.test. A
+            let mut r = Record::update0(name_from_str("a.zone.test."), 0, RecordType::A);
+            r.dns_class = DNSClass::ANY;
+            m.add_answer(r);
+        }
+        m.add_authority(Record::from_rdata(name_from_str("new.zone.test."), 300, RData::A(A::new(192, 0, 2, 77))));
+        m
+    } else {
+        let mut m = Message::new(c.id, MessageType::Query, OpCode::Query);
+        m.add_query(Query::new(origin, RecordType::AXFR));
+        m
+    };
+    if c.edns {
+        let mut e = Edns::new();
+        e.set_max_payload(1232);
+        m.set_edns(e);
+    }
+    let signer = hickory_signer(client, c.fudge);
+    let verifier = m
+        .finalize(&signer, c.t)
+        .map_err(|e| Fail::new("client-signer-failed", e.to_string()))?
+        .ok_or_else(|| Fail::new("client-signer-failed", "finalize returned no verifier"))?;
+    let bytes = m.to_vec().map_err(|e| Fail::new("client-encode-failed", e.to_string()))?;
+    Ok((bytes, verifier))
+}
+
+fn edit_tsig(t: &mut Tsig, f: &Field) {
+    match f {
+        Field::KeyName(v) => {
+            t.key_name = match v % 4 {
+                0 => labels_of("k3.keys.test."),
+                1 => {
+                    // case variant of the same name
+                    let mut n = t.key_name.clone();
+                    n[0] = n[0].iter().map(|b| b.to_ascii_uppercase()).collect();
+                    n
+                }
+                2 => labels_of("K2.keys.test."),
+                _ => vec![],
+            }
+        }
+        Field::AlgName(v) => {
+            t.alg_name = match v % 4 {
+                0 => Alg::Sha256.name(),
+                1 => Alg::Sha512.name(),
+                2 => vec![b"HMAC-SHA384".to_vec()],
+                _ => labels_of("hmac-md5.sig-alg.reg.int."),
+            }
+        }
+        Field::Time(d) => t.time = (t.time as i64).saturating_add(*d).clamp(0, (1i64 << 48) - 1) as u64,
+        Field::TimeAbs(v) => t.time = *v & ((1u64 << 48) - 1),
+        Field::Fudge(v) => t.fudge = *v,
+        Field::MacLen(n) => t.mac.truncate(*n as usize),
+        Field::MacExtend(n) => t.mac.extend(std::iter::repeat(0xA5).take(1 + (*n % 4) as usize)),
+        Field::MacFlip(p) => {
+            if !t.mac.is_empty() {
+                let i = *p as usize % (t.mac.len() * 8);
+                t.mac[i / 8] ^= 1 << (i % 8);
+            }
+        }
+        Field::OrigId(v) => t.orig_id = *v,
+        Field::Error(v) => t.error = *v,
+        Field::Other(o) => t.other = o.clone(),
+        Field::Class(v) => t.class = *v,
+        Field::Ttl(v) => t.ttl = *v,
+    }
+}
+
+fn mutate(base: &[u8], m: &Mutation, client: &Key, c: &Case) -> Option<Vec<u8>> {
+    let mut b = base.to_vec();
+    match m {
+        Mutation::None => {}
+        Mutation::BitFlip(p) => {
+            let i = *p as usize % (b.len() * 8);
+            b[i / 8] ^= 1 << (7 - i % 8);
+        }
+        Mutation::ByteSet(p, v) => {
+            let i = *p as usize % b.len();
+            if b[i] == *v {
+                b[i] = v.wrapping_add(1);
+            } else {
+                b[i] = *v;
+            }
+        }
+        Mutation::CountSet(w, v) => {
+            let o = 4 + 2 * (*w as usize % 4);
+            if u16::from_be_bytes([b[o], b[o + 1]]) == *v {
+                return None;
+            }
+            b[o..o + 2].copy_from_slice(&v.to_be_bytes());
+        }
+        Mutation::CountShift(w, fwd) => {
+            let a = 4 + 2 * (*w as usize % 3);
+            let (from, to) = if *fwd { (a, a + 2) } else { (a + 2, a) };
+            let f = u16::from_be_bytes([b[from], b[from + 1]]);
+            let t = u16::from_be_bytes([b[to], b[to + 1]]);
+            if f == 0 {
+                return None;
+            }
+            b[from..from + 2].copy_from_slice(&(f - 1).to_be_bytes());
+            b[to..to + 2].copy_from_slice(&(t + 1).to_be_bytes());
+        }
+        Mutation::Tsig(f, resign) => {
+            let (unsigned, mut t) = tsig_ref::split_signed(base)?;
+            let before = t.clone();
+            edit_tsig(&mut t, f);
+            if *resign {
+                // the client key with whatever algorithm name the TSIG now carries (if it is one we know)
+                let mut key = client.clone();
+                if let Some(a) = Alg::from_name(&t.alg_name) {
+                    key.alg = a;
+                }
+                tsig_ref::resign(&unsigned, &mut t, &key);
+                if matches!(f, Field::MacLen(_) | Field::MacExtend(_) | Field::MacFlip(_)) {
+                    edit_tsig(&mut t, f);
+                }
+            }
+            if t == before {
+                return None;
+            }
+            b = tsig_ref::attach(&unsigned, &t);
+        }
+        Mutation::TsigRemoved { fix_count } => {
+            let (unsigned, _) = tsig_ref::split_signed(base)?;
+            b = unsigned;
+            if !*fix_count {
+                let ar = u16::from_be_bytes([b[10], b[11]]) + 1;
+                b[10..12].copy_from_slice(&ar.to_be_bytes());
+            }
+        }
+        Mutation::TsigDuplicated => {
+            let (unsigned, t) = tsig_ref::split_signed(base)?;
+            b = tsig_ref::attach(&tsig_ref::attach(&unsigned, &t), &t);
+        }
+        Mutation::TsigNotLast(what) => {
+            let extra = if *what % 2 == 0 {
+                URr {
+                    name: labels_of("x.zone.test."),
+                    rtype: T_A,
+                    class: C_IN,
+                    ttl: 0,
+                    rdata: vec![192, 0, 2, 9],
+                }
+            } else {
+                // OPT
+                URr {
+                    name: vec![],
+                    rtype: 41,
+                    class: 1232,
+                    ttl: 0,
+                    rdata: vec![],
+                }
+            };
+            if *what % 2 == 1 && c.edns {
+                return None;
+            }
+            let ar = u16::from_be_bytes([b[10], b[11]]) + 1;
+            b[10..12].copy_from_slice(&ar.to_be_bytes());
+            b.extend(extra.wire());
+        }
+        Mutation::Trailing(n) => b.extend(std::iter::repeat(0u8).take(1 + *n as usize % 16)),
+        Mutation::HeaderId(v) => {
+            if u16::from_be_bytes([b[0], b[1]]) == *v {
+                return None;
+            }
+            b[0..2].copy_from_slice(&v.to_be_bytes());
+        }
+        Mutation::ResignedByReference => {
+            let (unsigned, _) = tsig_ref::split_signed(base)?;
+            b = tsig_ref::sign_request(&unsigned, client, c.t, c.fudge).0;
+        }
+    }
+    Some(b)
+}
+
+fn now_of(c: &Case) -> u64 {
+    let f = c.fudge as u64;
+    match c.clock {
+        Clock::BeforeWindow => c.t.saturating_sub(f + 1),
+        Clock::LowerEdge => c.t.saturating_sub(f),
+        Clock::Exact => c.t,
+        Clock::Inside(d) => {
+            let d = if f == 0 { 0 } else { (d as i64).rem_euclid(f as i64) };
+            if d % 2 == 0 {
+                c.t + (d as u64) / 2
+            } else {
+                c.t.saturating_sub(d as u64 / 2)
+            }
+        }
+        Clock::UpperEdge => c.t + f,
+        Clock::AfterWindow => c.t + f + 1,
+        Clock::FarFuture => c.t + 10_000_000,
+        Clock::FarPast => c.t.saturating_sub(10_000_000),
+    }
+}
+
+struct Reply {
+    bytes: Vec<u8>,
+    rcode: u8,
+    /// RRs in the answer section
+    answers: usize,
+    tsig: Option<Tsig>,
+    tsig_start: usize,
+}
+
+fn split_reply(b: &[u8]) -> Result<Reply, Fail> {
+    let p = tsig_ref::parse(b).map_err(|e| Fail::new("reply-unparseable", format!("{e}: {}", crate::core::hexser::to_hex(b))))?;
+    let answers = p.rrs.iter().filter(|r| r.section == 0).count();
+    let (tsig, tsig_start) = match p.rrs.last() {
+        Some(rr) if rr.rtype == T_TSIG && rr.section == 2 => (tsig_ref::parse_tsig(b, rr).ok(), rr.start),
+        _ => (None, 0),
+    };
+    Ok(Reply {
+        bytes: b.to_vec(),
+        rcode: p.flags[1] & 0x0f,
+        answers,
+        tsig,
+        tsig_start,
+    })
+}
+
+/// is this reply authentic per RFC 8945 §5.3 for a request whose MAC was `request_mac`?
+fn reply_authentic_ref(b: &[u8], request_mac: &[u8], key: &Key) -> bool {
+    let Ok(p) = tsig_ref::parse(b) else { return false };
+    let n_tsig = p.rrs.iter().filter(|r| r.rtype == T_TSIG).count();
+    let Some(rr) = p.rrs.last() else { return false };
+    if n_tsig != 1 || rr.rtype != T_TSIG || rr.section != 2 {
+        return false;
+    }
+    let Ok(t) = tsig_ref::parse_tsig(b, rr) else { return false };
+    if !canon::name_eq(&t.key_name, &key.name) || !canon::name_eq(&t.alg_name, &key.alg.name()) {
+        return false;
+    }
+    let d = tsig_ref::response_digest(request_mac, b, rr.start, &t);
+    tsig_ref::mac(key.alg, &key.secret, &d) == t.mac
+}
+
+fn mutation_class(m: &Mutation) -> String {
+    match m {
+        Mutation::None => "none".into(),
+        Mutation::BitFlip(_) => "bit-flip".into(),
+        Mutation::ByteSet(..) => "byte-set".into(),
+        Mutation::CountSet(..) => "count-set".into(),
+        Mutation::CountShift(..) => "count-shift".into(),
+        Mutation::Tsig(f, r) => format!(
+            "tsig-{}{}",
+            match f {
+                Field::KeyName(_) => "key-name",
+                Field::AlgName(_) => "algorithm",
+                Field::Time(_) | Field::TimeAbs(_) => "time",
+                Field::Fudge(_) => "fudge",
+                Field::MacLen(_) => "mac-truncated",
+                Field::MacExtend(_) => "mac-extended",
+                Field::MacFlip(_) => "mac-bit",
+                Field::OrigId(_) => "original-id",
+                Field::Error(_) => "error",
+                Field::Other(_) => "other-data",
+                Field::Class(_) => "class",
+                Field::Ttl(_) => "ttl",
+            },
+            if *r { "+resigned" } else { "" }
+        ),
+        Mutation::TsigRemoved { fix_count } => format!("tsig-removed(count-fixed={fix_count})"),
+        Mutation::TsigDuplicated => "tsig-duplicated".into(),
+        Mutation::TsigNotLast(w) => format!("tsig-not-last({})", if w % 2 == 0 { "A" } else { "OPT" }),
+        Mutation::Trailing(_) => "trailing-octets".into(),
+        Mutation::HeaderId(_) => "header-id".into(),
+        Mutation::ResignedByReference => "signed-by-reference-signer".into(),
+    }
+}
+
+/// which part of the request a positional mutation hit (own splitter over the *base* request)
+fn region_of(base: &[u8], pos: usize) -> &'static str {
+    if pos < 2 {
+        return "header-id";
+    }
+    if pos < 4 {
+        return "header-flags";
+    }
+    if pos < 12 {
+        return "header-counts";
+    }
+    let Ok(p) = tsig_ref::parse(base) else { return "?" };
+    for rr in &p.rrs {
+        if pos >= rr.start && pos < rr.end {
+            if rr.rtype == T_TSIG {
+                let Ok(t) = tsig_ref::parse_tsig(base, rr) else { return "tsig" };
+                let mac_end = rr.end - 6 - t.other.len();
+                let mac_start = mac_end - t.mac.len();
+                return if pos < rr.rdata_start - 10 {
+                    "tsig-owner"
+                } else if pos < rr.rdata_start {
+                    "tsig-type-class-ttl-rdlen"
+                } else if pos >= mac_start && pos < mac_end {
+                    "tsig-mac"
+                } else {
+                    "tsig-rdata-field"
+                };
+            }
+            return "signed-record";
+        }
+    }
+    "question"
+}
+
+pub fn body(c: &Case, rec: &mut Rec) -> CaseResult {
+    if c.t >= 1u64 << 47 {
+        rec.discard("time-out-of-48-bit-range");
+        return Ok(());
+    }
+    let (server_keys, client, unambiguous) = keys(c.keyset, c.alg);
+    let (base, mut verifier) = base_request(c, &client)?;
+    let Some(bytes) = mutate(&base, &c.mutation, &client, c) else {
+        rec.discard("mutation-is-identity");
+        return Ok(());
+    };
+    let now = now_of(c);
+
+    // server
+    let zone = base_zone();
+    let mut h = build_handler(&zone, c.kind.policy()).map_err(|e| Fail::new("harness-init", e))?;
+    // both sides configure the same fudge for a key (the reply's window is the server's fudge)
+    h.set_tsig_signers(server_keys.iter().map(|k| hickory_signer(k, c.fudge)).collect());
+    let h = Arc::new(h);
+    let mut catalog = Catalog::new();
+    catalog.upsert(h.origin().clone(), vec![h.clone()]);
+    let fd = VerifFrontDoor::new(catalog, Vec::<ipnet::IpNet>::new(), Vec::<ipnet::IpNet>::new());
+    let before = snapshot(&h);
+    let (tx, mut rx) = BufDnsStreamHandle::new(src_addr());
+    let outcome = {
+        let _clock = VirtualClock::start(now);
+        catch(|| block_on(fd.handle(bytes.clone(), src_addr(), Protocol::Tcp, tx)))
+    };
+    let mclass = mutation_class(&c.mutation);
+    rec.class(format!("mutation={mclass}"));
+    rec.class(format!("kind={:?}", c.kind));
+    rec.class(format!("keyset={:?}", c.keyset));
+    rec.class(format!("clock={}", match c.clock {
+        Clock::Inside(_) => "Inside".to_string(),
+        o => format!("{o:?}"),
+    }));
+    rec.class(format!("alg={:?}", c.alg));
+    rec.class(if c.t < c.fudge as u64 { "t<fudge" } else { "t>=fudge" });
+    let pos_region = match &c.mutation {
+        Mutation::BitFlip(p) => Some(region_of(&base, (*p as usize % (base.len() * 8)) / 8)),
+        Mutation::ByteSet(p, _) => Some(region_of(&base, *p as usize % base.len())),
+        _ => None,
+    };
+    if let Some(r) = pos_region {
+        rec.class(format!("region={r}"));
+    }
+    let auth = tsig_ref::authorised_ref(&bytes, now, &server_keys);
+    rec.class(format!(
+        "reference={}",
+        match &auth.verdict {
+            AuthRef::Authorised => "authorised".to_string(),
+            AuthRef::Unparseable(_) => "unparseable".to_string(),
+            AuthRef::BadTsigRdata(_) => "bad-tsig-rdata".to_string(),
+            o => format!("{o:?}"),
+        }
+    ));
+    if let Err(p) = outcome {
+        rec.class("panic");
+        let mut f = panic_fail(&p);
+        f.msg = format!("{} [request {} at server time {now}; TSIG {:?}]", f.msg, crate::core::hexser::to_hex(&bytes), auth.tsig);
+        return Err(f);
+    }
+    let mut replies = Vec::new();
+    while let Some(Some(m)) = rx.next().now_or_never() {
+        replies.push(m.into_parts().0);
+    }
+    let after = snapshot(&h);
+    let changed = after != before;
+    let authorised = auth.verdict == AuthRef::Authorised;
+    let received = auth.parsed.as_ref();
+    let is_update_req = received.is_some_and(|p| p.opcode() == 5 && !p.is_response());
+    let is_axfr_q = received.is_some_and(|p| p.opcode() == 0 && !p.is_response() && p.questions.first().is_some_and(|q| q.1 == T_AXFR));
+    let hexreq = || crate::core::hexser::to_hex(&bytes);
+
+    // ---- soundness ---------------------------------------------------------------------------
+    if changed && !(authorised && is_update_req) {
+        // attribute: does the MAC verify once the header's reserved Z bit is cleared?
+        let mut z = bytes.clone();
+        z[3] &= !0x40;
+        let sig = if bytes[3] & 0x40 != 0 && tsig_ref::authorised_ref(&z, now, &server_keys).verdict == AuthRef::Authorised {
+            "tsig-mac-check-ignores-header-z-bit"
+        } else if auth.mac_ok && auth.verdict == AuthRef::BadTime {
+            "update-applied-outside-fudge-window"
+        } else {
+            "update-applied-without-valid-tsig"
+        };
+        return Err(Fail::new(
+            sig,
+            format!(
+                "zone changed ({}) although the reference says {:?} (mutation {mclass}, server time {now}, TSIG {:?}); request {}",
+                zone_diff(&before.zone, &after.zone),
+                auth.verdict,
+                auth.tsig,
+                hexreq()
+            ),
+        ));
+    }
+    vensure!(replies.len() <= 1, "more-than-one-reply", "{} replies", replies.len());
+    let reply = match replies.first() {
+        Some(b) => Some(split_reply(b)?),
+        None => None,
+    };
+    if let Some(r) = &reply {
+        rec.class(format!("reply-rcode={}", r.rcode));
+        rec.class(match &r.tsig {
+            Some(t) if !t.mac.is_empty() => format!("reply-tsig=signed(error={})", t.error),
+            Some(t) => format!("reply-tsig=unsigned(error={})", t.error),
+            None => "reply-tsig=none".to_string(),
+        });
+        if is_axfr_q && r.answers > 0 {
+            let allowed = match c.kind.policy() {
+                AxfrPolicy::AllowAll => true,
+                AxfrPolicy::AllowSigned => authorised,
+                _ => false,
+            };
+            if !allowed {
+                let mut z = bytes.clone();
+                z[3] &= !0x40;
+                let sig = if bytes[3] & 0x40 != 0 && tsig_ref::authorised_ref(&z, now, &server_keys).verdict == AuthRef::Authorised {
+                    "tsig-mac-check-ignores-header-z-bit"
+                } else {
+                    "zone-transferred-without-valid-tsig"
+                };
+                return Err(Fail::new(
+                    sig,
+                    format!(
+                        "AXFR answered with {} RRs under {:?} although the reference says {:?} (mutation {mclass}, server time {now}); request {}",
+                        r.answers,
+                        c.kind.policy(),
+                        auth.verdict,
+                        hexreq()
+                    ),
+                ));
+            }
+        }
+    } else {
+        rec.class("no-reply");
+    }
+
+    // ---- completeness ------------------------------------------------------------------------
+    let within = {
+        let d = if now >= c.t { now - c.t } else { c.t - now };
+        d <= c.fudge as u64
+    };
+    let mut complete_checked = false;
+    let mut deferred: Vec<(String, String)> = Vec::new();
+    if c.mutation == Mutation::None && unambiguous && within {
+        vensure!(authorised, "reference-rejects-client-signature", "tsig_ref says {:?} for an unmodified request signed by hickory's client: {}", auth.verdict, hexreq());
+        let Some(r) = &reply else {
+            vfail!("no-reply-to-valid-request", "request {}", hexreq());
+        };
+        let edge = if now == c.t + c.fudge as u64 {
+            Some("upper")
+        } else if c.t >= c.fudge as u64 && now == c.t - c.fudge as u64 {
+            Some("lower")
+        } else {
+            None
+        };
+        let effect = if c.kind.is_update() {
+            r.rcode == 0 && changed
+        } else {
+            match c.kind.policy() {
+                AxfrPolicy::Deny => r.rcode == RC_REFUSED && r.answers == 0,
+                _ => r.rcode == 0 && r.answers >= 2,
+            }
+        };
+        if !effect {
+            // time exactly Fudge after Time Signed is inside the RFC 8945 §5.2.3 interval
+            let sig = if edge == Some("upper") { "tsig-fudge-window-half-open" } else { "valid-signed-request-has-no-effect" };
+            return Err(Fail::new(
+                sig,
+                format!(
+                    "unmodified request signed at {} fudge {} handled at server time {now}: rcode {}, {} answer RRs, zone changed = {changed}; reply TSIG {:?}",
+                    c.t, c.fudge, r.rcode, r.answers, r.tsig
+                ),
+            ));
+        }
+        if c.kind.policy() != AxfrPolicy::Deny || c.kind.is_update() {
+            if !(c.kind == Kind::AxfrAllowAll) {
+                // the reply is signed: RFC 8945 §5.3 MAC recomputed by the reference
+                let req_mac = auth.tsig.as_ref().map(|t| t.mac.clone()).unwrap_or_default();
+                let Some(rt) = &r.tsig else {
+                    vfail!("reply-to-signed-request-not-signed", "reply {}", crate::core::hexser::to_hex(&r.bytes));
+                };
+                vensure!(rt.error == 0 && rt.time == now, "reply-tsig-fields-wrong", "reply TSIG {rt:?} at server time {now}");
+                vensure!(
+                    reply_authentic_ref(&r.bytes, &req_mac, &client),
+                    "reply-mac-differs-from-rfc8945",
+                    "reply {} does not carry the RFC 8945 response MAC (TSIG at {})",
+                    crate::core::hexser::to_hex(&r.bytes),
+                    r.tsig_start
+                );
+                // every single-bit flip of the reply, flips first: a successful verify would
+                // advance the verifier's chaining state
+                let mut flips_rejected = 0u64;
+                let mut flips_uncovered = 0u64;
+                let mut flips_panicked = 0u64;
+                for bit in 0..r.bytes.len() * 8 {
+                    if c.reply_bit.is_some_and(|b| b as usize != bit) {
+                        continue;
+                    }
+                    let mut f = r.bytes.clone();
+                    f[bit / 8] ^= 1 << (7 - bit % 8);
+                    let accepted = match catch(|| verifier.verify(&f)) {
+                        Ok(v) => v.is_ok(),
+                        Err(p) => {
+                            let mut pf = panic_fail(&p);
+                            pf.msg = format!("{} [TSigVerifier::verify on the reply with bit {bit} (octet {}) flipped: {}]", pf.msg, bit / 8, crate::core::hexser::to_hex(&f));
+                            if rec.strict {
+                                return Err(pf);
+                            }
+                            // a panic is not a rejection; recorded, the sweep goes on
+                            if !deferred.iter().any(|d: &(String, String)| d.0 == pf.sig) {
+                                deferred.push((pf.sig, pf.msg));
+                            }
+                            flips_panicked += 1;
+                            continue;
+                        }
+                    };
+                    if accepted {
+                        // the verifier has advanced its chaining state; start over with a fresh one
+                        verifier = base_request(c, &client)?.1;
+                        if reply_authentic_ref(&f, &req_mac, &client) {
+                            // by RFC 8945 the octet is not covered by the MAC (ID, TSIG class/TTL, name case)
+                            flips_uncovered += 1;
+                            continue;
+                        }
+                        let z_bit = bit / 8 == 3 && (1u8 << (7 - bit % 8)) == 0x40;
+                        let sig = if z_bit { "tsig-mac-check-ignores-header-z-bit" } else { "client-verifier-accepts-modified-reply" };
+                        let fail = Fail::new(
+                            sig,
+                            format!("reply with bit {bit} (octet {}; TSIG RR starts at {}) flipped is accepted by TSigVerifier: {}", bit / 8, r.tsig_start, crate::core::hexser::to_hex(&f)),
+                        );
+                        if rec.strict || !z_bit {
+                            return Err(fail);
+                        }
+                        if !deferred.iter().any(|d| d.0 == fail.sig) {
+                            deferred.push((fail.sig, fail.msg));
+                        }
+                        continue;
+                    }
+                    flips_rejected += 1;
+                }
+                rec.count("reply_bit_flips_rejected", flips_rejected);
+                rec.count("reply_bit_flips_panicked", flips_panicked);
+                rec.count("reply_bit_flips_on_uncovered_octets_accepted", flips_uncovered);
+                let ok = match catch(|| verifier.verify(&r.bytes)) {
+                    Ok(v) => v.map(|_| ()).map_err(|e| e.to_string()),
+                    Err(p) => return Err(panic_fail(&p)),
+                };
+                if let Err(e) = ok {
+                    let sig = if edge.is_some() { "tsig-fudge-window-half-open" } else { "client-verifier-rejects-genuine-reply" };
+                    return Err(Fail::new(
+                        sig,
+                        format!("TSigVerifier rejects the unmodified reply ({e}); request signed at {} fudge {}, server time {now}", c.t, c.fudge),
+                    ));
+                }
+            }
+        }
+        complete_checked = true;
+        rec.class("completeness-checked");
+    }
+
+    // ---- non-triviality ----------------------------------------------------------------------
+    let edge_clock = matches!(c.clock, Clock::BeforeWindow | Clock::LowerEdge | Clock::UpperEdge | Clock::AfterWindow);
+    let touches = match &c.mutation {
+        Mutation::None => false,
+        Mutation::BitFlip(_) | Mutation::ByteSet(..) => !matches!(pos_region, Some("header-id") | None),
+        Mutation::HeaderId(_) | Mutation::Trailing(_) => false,
+        _ => true,
+    };
+    if touches || edge_clock || complete_checked {
+        rec.nontrivial();
+        if rec.wants_note() {
+            rec.note(format!(
+                "{:?} keys {:?} {:?} signed at {} fudge {} server clock {:?} (= {now}) mutation {:?}: reference {:?}, reply {}",
+                c.kind,
+                c.keyset,
+                c.alg,
+                c.t,
+                c.fudge,
+                c.clock,
+                c.mutation,
+                auth.verdict,
+                reply.as_ref().map(|r| format!("rcode {} answers {} tsig-error {:?}", r.rcode, r.answers, r.tsig.as_ref().map(|t| t.error))).unwrap_or("none".into())
+            ));
+        }
+    }
+    let known = crate::checks::c12::known_sigs("C13");
+    if let Some((sig, msg)) = deferred.iter().find(|d| !known.iter().any(|k| *k == d.0)).or(deferred.first()) {
+        let all: Vec<&str> = deferred.iter().map(|d| d.0.as_str()).collect();
+        return Err(Fail::new(sig.clone(), format!("{msg} [sweep continued; findings in this case: {all:?}]")));
+    }
+    Ok(())
+}
+
+fn zone_diff(a: &Zone, b: &Zone) -> String {
+    let mut s = String::new();
+    for (k, t) in &a.rrs {
+        if b.rrs.get(k) != Some(t) {
+            s.push_str(&format!("-[{} {} {}] ", canon::show(&k.0), type_name(k.1), show_rdata(k.1, &k.2)));
+        }
+    }
+    for (k, t) in &b.rrs {
+        if a.rrs.get(k) != Some(t) {
+            s.push_str(&format!("+[{} {} {}] ", canon::show(&k.0), type_name(k.1), show_rdata(k.1, &k.2)));
+        }
+    }
+    s
+}
+
+// ---------------------------------------------------------------------------------------------
+// strategies
+
+fn kind() -> impl Strategy<Value = Kind> {
+    prop_oneof![
+        4 => Just(Kind::Update),
+        2 => Just(Kind::UpdateWithPrereq),
+        1 => Just(Kind::AxfrDeny),
+        1 => Just(Kind::AxfrAllowAll),
+        4 => Just(Kind::AxfrAllowSigned),
+    ]
+}
+
+fn keyset() -> impl Strategy<Value = KeySet> {
+    prop_oneof![
+        1 => Just(KeySet::Zero),
+        6 => Just(KeySet::One),
+        2 => Just(KeySet::TwoUseFirst),
+        3 => Just(KeySet::TwoUseSecond),
+        2 => Just(KeySet::SameNameOtherSecret),
+        1 => Just(KeySet::SameNameBothConfigured),
+        2 => Just(KeySet::OtherNameSameSecret),
+        1 => Just(KeySet::OtherAlgorithm),
+    ]
+}
+
+fn alg() -> impl Strategy<Value = Alg> {
+    prop_oneof![Just(Alg::Sha256), Just(Alg::Sha384), Just(Alg::Sha512)]
+}
+
+fn clock() -> impl Strategy<Value = Clock> {
+    prop_oneof![
+        2 => Just(Clock::BeforeWindow),
+        2 => Just(Clock::LowerEdge),
+        5 => Just(Clock::Exact),
+        3 => any::<i16>().prop_map(Clock::Inside),
+        2 => Just(Clock::UpperEdge),
+        2 => Just(Clock::AfterWindow),
+        1 => Just(Clock::FarFuture),
+        1 => Just(Clock::FarPast),
+    ]
+}
+
+fn time_fudge() -> impl Strategy<Value = (u64, u16)> {
+    prop_oneof![
+        8 => (1_600_000_000u64..1_900_000_000, prop_oneof![4 => Just(300u16), 1 => Just(1u16), 1 => Just(0u16), 1 => Just(u16::MAX), 1 => 2u16..1000]),
+        // small Time Signed (< fudge) and times around it
+        2 => (0u64..700, prop_oneof![Just(300u16), Just(600u16), Just(u16::MAX)]),
+        1 => ((1u64 << 32) - 400..(1u64 << 32) + 400, Just(300u16)),
+    ]
+}
+
+fn field() -> impl Strategy<Value = Field> {
+    prop_oneof![
+        2 => any::<u8>().prop_map(Field::KeyName),
+        2 => any::<u8>().prop_map(Field::AlgName),
+        2 => prop_oneof![Just(1i64), Just(-1i64), -700i64..700, Just(86_400i64), Just(-86_400i64)].prop_map(Field::Time),
+        1 => prop_oneof![0u64..400, Just(0u64)].prop_map(Field::TimeAbs),
+        2 => prop_oneof![Just(0u16), Just(u16::MAX), any::<u16>()].prop_map(Field::Fudge),
+        3 => (0u16..65).prop_map(Field::MacLen),
+        1 => any::<u8>().prop_map(Field::MacExtend),
+        2 => any::<u16>().prop_map(Field::MacFlip),
+        2 => any::<u16>().prop_map(Field::OrigId),
+        2 => prop_oneof![Just(16u16), Just(17u16), Just(18u16), any::<u16>()].prop_map(Field::Error),
+        1 => proptest::collection::vec(any::<u8>(), 1..8).prop_map(Field::Other),
+        1 => prop_oneof![Just(1u16), Just(254u16), any::<u16>()].prop_map(Field::Class),
+        1 => prop_oneof![Just(1u32), any::<u32>()].prop_map(Field::Ttl),
+    ]
+}
+
+fn mutation() -> impl Strategy<Value = Mutation> {
+    prop_oneof![
+        20 => any::<u32>().prop_map(Mutation::BitFlip),
+        10 => (any::<u32>(), any::<u8>()).prop_map(|(p, v)| Mutation::ByteSet(p, v)),
+        4 => (0u8..4, 0u16..4).prop_map(|(w, v)| Mutation::CountSet(w, v)),
+        3 => (0u8..3, any::<bool>()).prop_map(|(w, f)| Mutation::CountShift(w, f)),
+        22 => (field(), any::<bool>()).prop_map(|(f, r)| Mutation::Tsig(f, r)),
+        3 => any::<bool>().prop_map(|fix_count| Mutation::TsigRemoved { fix_count }),
+        2 => Just(Mutation::TsigDuplicated),
+        3 => any::<u8>().prop_map(Mutation::TsigNotLast),
+        2 => any::<u8>().prop_map(Mutation::Trailing),
+        3 => any::<u16>().prop_map(Mutation::HeaderId),
+        2 => Just(Mutation::ResignedByReference),
+        4 => Just(Mutation::None),
+    ]
+}
+
+fn any_case(_t: Tier) -> impl Strategy<Value = Case> {
+    (kind(), keyset(), alg(), time_fudge(), clock(), mutation(), any::<u16>(), any::<bool>()).prop_map(|(kind, keyset, alg, (t, fudge), clock, mutation, id, edns)| Case {
+        kind,
+        keyset,
+        alg,
+        t,
+        fudge,
+        clock,
+        mutation,
+        id,
+        edns,
+        reply_bit: None,
+    })
+}
+
+fn unmodified_case(_t: Tier) -> impl Strategy<Value = Case> {
+    let ks = prop_oneof![5 => Just(KeySet::One), 2 => Just(KeySet::TwoUseFirst), 3 => Just(KeySet::TwoUseSecond)];
+    (kind(), ks, alg(), time_fudge(), clock(), any::<u16>(), any::<bool>()).prop_map(|(kind, keyset, alg, (t, fudge), clock, id, edns)| Case {
+        kind,
+        keyset,
+        alg,
+        t,
+        fudge,
+        clock,
+        mutation: Mutation::None,
+        id,
+        edns,
+        reply_bit: None,
+    })
+}
+
+const ENUM_KINDS: [Kind; 4] = [Kind::Update, Kind::UpdateWithPrereq, Kind::AxfrAllowSigned, Kind::AxfrDeny];
+const ENUM_ALGS: [Alg; 3] = [Alg::Sha256, Alg::Sha384, Alg::Sha512];
+
+fn enum_base(kind: Kind, alg: Alg, edns: bool, mutation: Mutation) -> Case {
+    Case {
+        kind,
+        keyset: KeySet::TwoUseSecond,
+        alg,
+        t: 1_700_000_000,
+        fudge: 300,
+        clock: Clock::Exact,
+        mutation,
+        id: 0x1234,
+        edns,
+        reply_bit: None,
+    }
+}
 
 pub fn check() -> Option<Check> {
-    None
+    let mutations = prop("request_mutations", 40_000, 2_000_000, any_case, body);
+    let complete = prop("unmodified_requests", 3_000, 100_000, unmodified_case, body);
+    // every single-bit flip of the whole request, for each kind x algorithm (EDNS on for SHA-256)
+    let flips = enumerate(
+        "every_request_bit_flip",
+        |_env: &Env| {
+            let mut v = Vec::new();
+            for kind in ENUM_KINDS {
+                for alg in ENUM_ALGS {
+                    let edns = alg == Alg::Sha256;
+                    let c0 = enum_base(kind, alg, edns, Mutation::None);
+                    let (_, client, _) = keys(c0.keyset, alg);
+                    let len = base_request(&c0, &client).map(|b| b.0.len()).unwrap_or(0);
+                    for bit in 0..(len * 8) as u32 {
+                        v.push(enum_base(kind, alg, edns, Mutation::BitFlip(bit)));
+                    }
+                }
+            }
+            (Box::new(v.into_iter()) as Box<dyn Iterator<Item = Case> + Send>, true)
+        },
+        body,
+    );
+    // MAC truncated to every length (and the full MAC extended), original MAC and re-signed
+    let trunc = enumerate(
+        "every_mac_length",
+        |_env: &Env| {
+            let mut v = Vec::new();
+            for kind in [Kind::Update, Kind::AxfrAllowSigned] {
+                for alg in ENUM_ALGS {
+                    for n in 0..alg.out_len() as u16 {
+                        v.push(enum_base(kind, alg, false, Mutation::Tsig(Field::MacLen(n), false)));
+                    }
+                    for n in 0..4u8 {
+                        v.push(enum_base(kind, alg, false, Mutation::Tsig(Field::MacExtend(n), false)));
+                    }
+                }
+            }
+            (Box::new(v.into_iter()) as Box<dyn Iterator<Item = Case> + Send>, true)
+        },
+        body,
+    );
+    Some(Check {
+        id: "C13",
+        level: "exploration",
+        rule: "requests built and TSIG-signed by hickory's client (UPDATE with/without prerequisite; AXFR under Deny/AllowAll/AllowSigned; HMAC-SHA256/384/512; with/without EDNS; key sets: none, one, two, same name/other secret, same name twice, other name/same secret, other algorithm; Time Signed normal, < fudge, around 2^32; fudge 0, 1, 300, 65535) x server clock {t-fudge-1, t-fudge, inside, t, t+fudge, t+fudge+1, far} x mutation {bit flip, byte set, section-count set/shift, TSIG field edit with original or recomputed MAC (key name, algorithm, time, fudge, MAC truncated/extended/flipped, original ID, error, other data, class, TTL), TSIG removed/duplicated/not last, trailing octets, header ID, re-signed by the reference signer}; every_request_bit_flip enumerates all single-bit flips of 12 base requests, every_mac_length all MAC lengths; for unmodified in-window requests every single-bit flip of the reply is given to TSigVerifier. Non-trivial = distinct case AND (the mutation touches a signed octet, the MAC or a TSIG field, OR the clock is within 1 of a fudge edge, OR the completeness clause incl. the reply-flip sweep ran)",
+        assumptions: vec![
+            "octets RFC 8945 leaves outside the MAC (header ID via original-ID substitution, TSIG CLASS and TTL which enter the digest as constants, case of key/algorithm names, octets after the last counted record) may change without the request or reply counting as modified",
+            "a key set with the same key name configured twice is outside the completeness clause (recorded)",
+            "answers to non-AXFR questions (e.g. an UPDATE whose opcode was flipped to QUERY) are public data, not 'zone data returned'",
+            "server clock = interposed CLOCK_REALTIME read by Time::current_time()",
+        ],
+        subs: vec![mutations, complete, flips, trunc],
+    })
 }
